@@ -79,7 +79,7 @@ func checkC07(c *h.Check) {
 		dev := x.Choose("devnode", n+1)
 		kind := 0
 		if dev > 0 {
-			kind = 1 + x.Choose("devkind", 3)
+			kind = 1 + x.Choose("devkind", 5)
 			if !thorough && n == 3 && popcount(mask) > 3 {
 				x.Skip() // quick tier: d=1 edge kinds on N=3 only for graphs with at most 3 edges
 				return
@@ -96,7 +96,7 @@ func checkC07(c *h.Check) {
 		mask := uint64(ch["edges"])
 		kinds := make([]int, n)
 		if d := ch["devnode"]; d > 0 {
-			kinds[d-1] = 1 + ch["devkind"]
+			kinds[d-1] = []int{NStruct, NField, NBound, NPtrField, NFieldOfPtr}[ch["devkind"]]
 		}
 		prog := graphProgramP(n, adjFromMask(n, mask), kinds, ch["root"], []int{1, 0, 2, 3, 4}[ch["place"]])
 		addGraph("C07/digraph/"+x.ID(), prog)
